@@ -63,14 +63,8 @@ def record(n, rho, r0, drmin, drmax, nswp=None, cache=False, m=None, none_at=Non
         r_ = [1] + [rho] * (d - 1) + [1]
         cores = [rng_.integers(1, 3, size=(r_[k], n[k], r_[k + 1])) * rng_.choice([-1, 1], size=(r_[k], n[k], r_[k + 1])) for k in range(d)]
         F = dense([c_.astype(float) for c_ in cores])
-        tr_ = true_ranks(n, rho)
-        for k in range(1, d):
-            if np.linalg.matrix_rank(F.reshape(int(np.prod(n[:k])), -1)) != tr_[k]:
-                generic = False
-    if zeros:
-        # an objective that is exactly 0.0 at many indices (no exactness claim for such a target)
-        F = F.copy()
-        F[np.random.default_rng(seed + 5).random(F.shape) < 0.4] = 0.
+        # integer-valued targets are not generic (many singular minors): no exactness claim, only transparency / counts / types
+        generic = False
     Y0 = teneva.rand(n, r0, seed=seed + 1000)
     ev = []
     ncall = [0]
